@@ -1,5 +1,5 @@
 """C02 - regenerated source preserves the program's content token for token."""
-from mc import scenarios, lexer
+from mc import scenarios, lexer, grammar_stmts, explore
 from mc import grammar as G
 from mc.normalise import normalise, stmt_tokens
 from mc.base import try_parse, canon, text_of, h64, node_classes
@@ -17,7 +17,7 @@ BOUNDS = scenarios.BOUNDS
 
 
 def plan(tier, seed):
-    return scenarios.tasks(tier)
+    return scenarios.tasks(tier) + [("ADV", i) for i in range(len(grammar_stmts.ADVERSARIAL))]
 
 
 def source_statements(prog):
@@ -82,6 +82,14 @@ def check_case(res, cid, prog, tag):
 
 
 def run(task):
+    if task[0] == "ADV":
+        from mc.runner import Result
+
+        res = Result()
+        text, ctx, std = grammar_stmts.ADVERSARIAL[task[1]]
+        ch, prog = explore.run(G.template_scenario("ADV%d" % task[1], text, ctx, std), ())
+        check_case(res, "ADV/%d/" % task[1], prog, "ADV/%d" % task[1])
+        return res
     return scenarios.run_task(task, check_case)
 
 
